@@ -31,12 +31,12 @@ META = {
     'rule': ('(a) random files over an alphabet of names, values, 12 whitespace code points, comment prefixes, commas, latin-1 letters, '
              'three line-ending styles, duplicates: the real read_input_file dictionary (keys in order, Name, sValue, Comment, raw_entry) '
              'must equal the model\'s, compared inside Coq; (b) metamorphic variants (perm, ws, comment, dup, eol, all) of distinct-name '
-             'parameter lists through the real tokenizer; (c) client override files; (d) whole runs of the six variant classes of example '
+             'parameter lists through the real tokenizer; (c) client override files (text) and (e) client runs with parameters moved into the params dict in two orders, duplicates left in the base file; (d) whole runs of the six variant classes of example '
              'and synthetic inputs (incl. add-ons combined with S-DAC-GT, add-on block moved first / last), reports compared after masking the metadata lines. Non-trivial = file with >= 2 parameter lines and '
              'at least one decoration; distinct = distinct feature signature / (base, class) pair'),
     'trusted_base': ['Coq 8.16.1 kernel + vm_compute (no native_compute)',
                      'all C12 theorems: Closed under the global context (no axioms)',
-                     'hand-written model coq/Model/Tokenizer.v tied to GeoPHIRESUtils.read_input_file and '
+                     'hand-written models coq/Model/UTokenizer.v + coq/Model/Utf8.v tied to GeoPHIRESUtils.read_input_file (on file BYTES) and '
                      'GeophiresInputParameters by byte-exact correspondence evaluated in the kernel',
                      'tools/gen/input_param_uses.py (ast classifier, unverified Python, fail-closed)'],
     'modelled': ['GeoPHIRESUtils.read_input_file', 'str.strip / str.split / str.startswith on code points < 256',
@@ -51,9 +51,11 @@ META = {
 GENERATORS = (input_param_uses.gen,)
 
 NAMES = ['Reservoir Depth', 'Gradient 1', 'End-Use Option', 'Units:Foo', 'AddOn CAPEX 1', 'AddOn CAPEX 2', 'AddOn Nickname 1', 'A', '',
-         'x y', 'Gradient  1', 'Power Plant Type', 'Reservoir Model', 'caf\xe9', 'T\xb0', '-x', '#n', 'Plant Lifetime']
-VALUES = ['3', '50', '2', '3 km', '1e-3', '', 'True', 'a b  c', '0.5', '-7', 'degC', '12.5 degC/km', 'x.csv', '\xb5']
-JUNK = list(' \t,,,#-*-ab1\xe9\x0b\x1c\x85\xa0\r') + ['--', '# ', '* ', ', ']
+         'x y', 'Gradient  1', 'Power Plant Type', 'Reservoir Model', 'caf\xe9', 'T\xb0', '-x', '#n', 'Plant Lifetime', '\u6e29\u5ea6',
+         'Gradient\u20131', '\ufeffReservoir Depth']
+VALUES = ['3', '50', '2', '3 km', '1e-3', '', 'True', 'a b  c', '0.5', '-7', 'degC', '12.5 degC/km', 'x.csv', '\xb5', '\u201c5\u201d',
+          '\U0001f600']
+JUNK = list(' \t,,,#-*-ab1\xe9\x0b\x1c\x85\xa0\r\u2003\u3000\u2028\u200b\ufeff') + ['--', '# ', '* ', ', ']
 MASK = re.compile(r'^\s*(Simulation Date|Simulation Time|Calculation Time|GEOPHIRES Version):.*$', re.M)
 
 
@@ -62,20 +64,58 @@ def _quiet():
     import geophires_x.Model  # noqa: F401
 
 
+REQ = ['Base.UStr', 'Model.UTokenizer', 'Model.Utf8']
+
+
 def real_read(ctx, text):
+    """text: str (written UTF-8 encoded) or bytes -> dictionary dump of the real read_input_file, None on UnicodeDecodeError"""
     from geophires_x.GeoPHIRESUtils import read_input_file
     p = Path(ctx.scratch, f'tok_{uuid.uuid4().hex[:10]}.txt')
-    p.write_bytes(text.encode('utf-8'))
+    p.write_bytes(text if isinstance(text, bytes) else text.encode('utf-8'))
     d = {}
     try:
         read_input_file(d, input_file_name=str(p))
+    except UnicodeDecodeError:
+        return None
     finally:
         p.unlink()
     return [(k, e.Name, e.sValue, e.Comment, e.raw_entry) for k, e in d.items()]
 
 
+def ulit(s):
+    """Coq term of type ustring (list of code points) for a Python str"""
+    parts, run, nums = [], [], []
+
+    def flush():
+        if run:
+            parts.append('us ' + qconv.coq_string(''.join(run)) + '%string')
+            run.clear()
+        if nums:
+            parts.append('[' + '; '.join(map(str, nums)) + ']')
+            nums.clear()
+    for ch in s:
+        if 32 <= ord(ch) < 127:
+            if nums:
+                flush()
+            run.append(ch)
+        else:
+            if run:
+                flush()
+            nums.append(ord(ch))
+    flush()
+    return '(' + ' ++ '.join(parts) + ')%list' if parts else '[]'
+
+
+def blist(b):
+    return '[' + '; '.join(map(str, b)) + ']'
+
+
 def _dump_lit(dump):
-    return '[' + '; '.join('(%s, (%s, (%s, (%s, %s))))' % tuple(qconv.coq_bytes(x) for x in row) for row in dump) + ']'
+    return '[' + '; '.join('(%s, (%s, (%s, (%s, %s))))' % tuple(ulit(x) for x in row) for row in dump) + ']'
+
+
+def file_term(data, dump):
+    return f'file_reads_as {blist(data)} ' + ('None' if dump is None else f'(Some {_dump_lit(dump)})')
 
 
 # ------------------------------------------------------------------------------------------ (a) model vs tokenizer
@@ -112,25 +152,38 @@ def part_model_vs_tokenizer(ctx):
         t, s = random_file(ctx.rng)
         texts.append(t)
         sigs.append(s)
+    datas = [t.encode('utf-8') for t in texts]
+    # byte level: corrupted encodings (stray / truncated / overlong / surrogate / latin-1 bytes): UnicodeDecodeError or not
+    for i in range(0, n, 7):
+        b, r = bytearray(datas[i]), ctx.rng
+        k = r.randint(0, len(b))
+        b[k:k] = r.choice([b'\x80', b'\xbf', b'\xc0\x80', b'\xc1\xbf', b'\xe9', b'\xa0', b'\xed\xa0\x80', b'\xe2\x80', b'\xf4\x90\x80\x80',
+                           b'\xf5', b'\xff', b'\xe0\x9f\xbf', b'\xf0\x8f\xbf\xbf', b'\xc2', b'\xef\xbb\xbf', b'\xe2\x80\x83', b'\xf0\x9f\x98'])
+        datas.append(bytes(b))
+        sigs.append(('bytes',) + sigs[i])
     for t in sorted(Path(fw.VERIF, 'corpus', 'C12').glob('tok_*.txt')):
-        texts.insert(0, t.read_bytes().decode('utf-8'))
+        datas.insert(0, t.read_bytes())
         sigs.insert(0, ('corpus', t.name))
-    dumps = [real_read(ctx, t) for t in texts]
-    terms = [f'reads_as {qconv.coq_bytes(t)} {_dump_lit(d)}' for t, d in zip(texts, dumps)]
-    failing = fw.kernel_bools(ctx, 'tokenizer', ['Model.Tokenizer'], terms, open_scope='string_scope')
-    ctx.count('model-vs-read_input_file', evaluations=len(texts),
-              nontrivial_keys=[s for s, d in zip(sigs, dumps) if len(d) >= 2 and len(s) > 2],
-              entries=dict(collections.Counter(min(len(d), 5) for d in dumps)))
-    ctx.sample('model-vs-read_input_file', {'text': texts[-1], 'dictionary': dumps[-1]})
+    dumps = [real_read(ctx, d) for d in datas]
+    terms = [file_term(d, dump) for d, dump in zip(datas, dumps)]
+    failing = fw.kernel_bools(ctx, 'tokenizer', REQ, terms, open_scope='N_scope')
+    table = [c for c in range(0x110000) if chr(c).isspace()]
+    if fw.kernel_bools(ctx, 'wstable', REQ, [f'nlist_eqb ws_points {blist(table)}'], open_scope='N_scope'):
+        ctx.violate('corr', 'tokenizer:isspace-table', 'str.isspace() of the running interpreter and ws_points of the Coq model differ',
+                    inp={'part': 'wstable'}, observed=table)
+    ctx.count('model-vs-read_input_file', evaluations=len(datas),
+              nontrivial_keys=[s_ for s_, d in zip(sigs, dumps) if d is not None and len(d) >= 2 and len(s_) > 2],
+              entries=dict(collections.Counter('decode-error' if d is None else min(len(d), 5) for d in dumps)))
+    ctx.sample('model-vs-read_input_file', {'bytes': repr(datas[-1]), 'dictionary': dumps[-1]})
     if failing:   # a difference confined to the Comment field (never consulted by the simulator) is recorded, not reported
-        again = fw.kernel_bools(ctx, 'tokenizer_nc', ['Model.Tokenizer'],
-                                [terms[i].replace('reads_as ', 'reads_as_nocomment ', 1) for i in failing], open_scope='string_scope')
+        again = fw.kernel_bools(ctx, 'tokenizer_nc', REQ,
+                                [terms[i].replace('file_reads_as ', 'file_reads_as_nocomment ', 1) for i in failing], open_scope='N_scope')
         if len(again) < len(failing):
             ctx.note(f'{len(failing) - len(again)} files differ from the model in the Comment field only')
         failing = [failing[i] for i in again]
     for i in failing[:5]:
         ctx.violate('corr', 'tokenizer:model-disagrees', 'Coq model read_text and GeoPHIRESUtils.read_input_file give different dictionaries',
-                    inp={'part': 'tokenizer', 'text': texts[i]}, observed=dumps[i], expected='dump (read_text text) of Model/Tokenizer.v')
+                    inp={'part': 'tokenizer', 'bytes_hex': datas[i].hex()}, observed=dumps[i], expected='read_file bytes of Model/Utf8.v + Model/UTokenizer.v')
     return failing
 
 
@@ -191,8 +244,8 @@ def part_client(ctx, n):
             names = [l[1] for l in base]
             params = [(k, rnd.choice(['60', '2', 'x y', '1e9'])) for k in rnd.sample(names + ['New 1', 'New 2'], rnd.randint(1, 3))]
         text, got = client_case(ctx, base_text, params)
-        plit = '[' + '; '.join(f'({qconv.coq_bytes(k)}, {qconv.coq_bytes(v)})' for k, v in params) + ']'
-        terms.append(f'String.eqb (client_text {qconv.coq_bytes(base_text)} {plit}) {qconv.coq_bytes(text)}')
+        plit = '[' + '; '.join(f'({ulit(k)}, {ulit(v)})' for k, v in params) + ']'
+        terms.append(f'US.eqb (client_text {ulit(base_text)} {plit}) {ulit(text)}')
         cases.append((base_text, params, text))
         lost = [k for k, v in params if got.get(k) != v]
         ctx.count('client-append', evaluations=1, nontrivial_keys=[(i, final, eol)], base_terminated={str(final): 1})
@@ -204,7 +257,7 @@ def part_client(ctx, n):
                         + ('(base file has no final line terminator: the first override is glued to its last line)' if glued else ''),
                         inp={'part': 'client', 'base_text': base_text, 'params': params}, expected=dict(params),
                         observed={k: got.get(k) for k, _ in params})
-    failing = fw.kernel_bools(ctx, 'client', ['Model.Tokenizer'], terms, open_scope='string_scope')
+    failing = fw.kernel_bools(ctx, 'client', REQ, terms, open_scope='N_scope')
     for i in failing[:3]:
         ctx.violate('corr', 'client-append:model-disagrees', 'Coq model client_text and GeophiresInputParameters write different files',
                     inp={'part': 'client', 'base_text': cases[i][0], 'params': cases[i][1]}, observed=cases[i][2])
@@ -276,12 +329,66 @@ def part_runs(ctx, bases=None, classes=layout.CLASSES):
     return bad
 
 
+# ------------------------------------------------------------------------------------------ (e) client overrides, whole runs
+def _client_run(a):
+    base_text, params, scratch = a
+    import os
+    import sys
+    from geophires_x_client import GeophiresInputParameters, GeophiresXClient
+    os.chdir(scratch)
+    sys.stdout = open(os.devnull, 'w')
+    basef = Path(scratch, f'cbase_{uuid.uuid4().hex[:10]}.txt')
+    basef.write_bytes(base_text.encode('utf-8'))
+    try:
+        r = GeophiresXClient(enable_caching=False).get_geophires_result(GeophiresInputParameters(dict(params), from_file_path=basef))
+        return {'report': Path(r.output_file_path).read_text(encoding='UTF-8', errors='replace'), 'error': None}
+    except BaseException as e:  # noqa
+        return {'report': None, 'error': f'{type(e).__name__}: {e}'[:300]}
+
+
+def part_client_runs(ctx, bases):
+    """GeophiresInputParameters(params, from_file_path=base): some parameters are moved from the file into the params dict (in two
+    different dict orders), some of them ALSO stay in the base file with another value (duplicate names: the override must govern),
+    base with and without final line terminator; every such request must give the report of the plain file."""
+    from concurrent.futures import ProcessPoolExecutor
+    rnd, jobs, meta, refs = ctx.rng, [], [], []
+    for name, lines in bases:
+        movable = [l for l in lines if l[0] == 'p' and not layout.is_block(l[1]) and not layout._listlike(l) and l[1] != 'Print Output to Console']
+        moved = rnd.sample(movable, min(len(movable), rnd.randint(3, 6)))
+        stale = set(id(l) for l in rnd.sample(moved, max(1, len(moved) // 2)))      # these stay in the base file with a junk value
+        base = [(('p', l[1], rnd.choice(['99999', '0', 'junk', '-1']), '') if id(l) in stale else None) if l in moved else l for l in lines]
+        base = [l for l in base if l is not None]
+        params = [(l[1], l[2]) for l in moved]
+        refs.append(layout.render(lines))
+        for variant in ('order-a', 'order-b'):
+            if variant == 'order-b':
+                params = list(reversed(params)) if len(params) > 1 else params
+            eol, final = rnd.choice([('\n', True), ('\n', False), ('\r\n', True), ('\r\n', False)])
+            jobs.append((layout.render(base, eol, final), params, str(ctx.scratch)))
+            meta.append((name, variant, len(refs) - 1))
+    ref_runs = runner.run_many(ctx, refs, workers=8)
+    with ProcessPoolExecutor(max_workers=8, initializer=runner._init_worker, initargs=(str(ctx.scratch),)) as ex:
+        res = list(ex.map(_client_run, jobs))
+    for (name, variant, k), job, r in zip(meta, jobs, res):
+        want = masked(ref_runs[k])
+        got = MASK.sub('', r['report']).replace('-0.00', '0.00') if r['report'] is not None else 'NO REPORT: ' + re.sub(r'/[^ \'"]*', '<path>', str(r['error']))[:300]
+        ctx.count('client-override-runs', evaluations=1, nontrivial_keys=[(name, variant)], variants={variant: 1})
+        if got != want:
+            diff = [(a, b) for a, b in zip(want.splitlines(), got.splitlines()) if a != b][:6]
+            ctx.violate('property', f'client-override:run:{variant}', f'GeophiresInputParameters(params, from_file_path): moving parameters of input {name} '
+                        'into the params dict (duplicates left in the base file) changes the case report',
+                        inp={'part': 'client-runs', 'name': name, 'base_text': job[0], 'params': job[1], 'plain_text': refs[k]},
+                        expected='the report of the plain file', observed={'first_differing_lines': diff, 'error': r['error']})
+
+
 def correspondence(ctx, proofs_ok=True):
     _quiet()
     part_model_vs_tokenizer(ctx)
     part_metamorphic(ctx, ctx.n(200, 4000))
     part_client(ctx, ctx.n(120, 3000))
-    part_runs(ctx)
+    bases = base_inputs(ctx)
+    part_runs(ctx, bases)
+    part_client_runs(ctx, bases[:ctx.n(10, 40)])
 
 
 def search(ctx):
@@ -301,15 +408,15 @@ def replay(ctx, data):
     inp = data['input']
     part = inp.get('part')
     if part in ('tokenizer', 'metamorphic'):
-        got = real_read(ctx, inp['text'])
-        fails = fw.kernel_bools(ctx, 'replay', ['Model.Tokenizer'], [f'reads_as {qconv.coq_bytes(inp["text"])} {_dump_lit(got)}'],
-                                open_scope='string_scope')
+        data = bytes.fromhex(inp['bytes_hex']) if 'bytes_hex' in inp else inp['text'].encode('utf-8')
+        got = real_read(ctx, data)
+        fails = fw.kernel_bools(ctx, 'replay', REQ, [file_term(data, got)], open_scope='N_scope')
         print('implementation dictionary:', got)
         print('Coq model agrees with the implementation:', not fails)
         bad = bool(fails)
         if part == 'metamorphic':
-            gmap = {k: v for k, _, v, _, _ in got}
-            gblock = [k for k, *_ in got if layout.is_block(k)]
+            gmap = {k: v for k, _, v, _, _ in got or []}
+            gblock = [k for k, *_ in got or [] if layout.is_block(k)]
             print('expected parameter set:', inp['want'], 'block order', inp['block'])
             bad = gmap != inp['want'] or gblock != inp['block']
     elif part == 'client':
@@ -318,6 +425,14 @@ def replay(ctx, data):
         print('file written by the client:', repr(text))
         print('overrides:', dict(params), '-> read back:', {k: got.get(k) for k, _ in params})
         bad = any(got.get(k) != v for k, v in params)
+    elif part == 'client-runs':
+        from concurrent.futures import ProcessPoolExecutor
+        ref = runner.run_many(ctx, [inp['plain_text']])[0]
+        with ProcessPoolExecutor(max_workers=1, initializer=runner._init_worker, initargs=(str(ctx.scratch),)) as ex:
+            r = ex.submit(_client_run, (inp['base_text'], [tuple(p) for p in inp['params']], str(ctx.scratch))).result()
+        got = MASK.sub('', r['report']).replace('-0.00', '0.00') if r['report'] is not None else 'NO REPORT'
+        bad = got != masked(ref)
+        print('client(params, base file) report == report of the plain file:', not bad, r['error'] or '')
     elif part == 'runs':
         a, b = runner.run_many(ctx, [inp['base_text'], inp['variant_text']])
         bad = masked(a) != masked(b)
